@@ -592,4 +592,59 @@ theorem replaceFilesE_false_stuck (s : St) (p : String) (ps : List String) (F : 
   simp only [removeLoopE, noFaults, hp, and_self, if_true]
   cases s; simp_all
 
+/-! ### a `WriteFile` error of any class aborts the call -/
+
+/-- `WriteFile` succeeds iff NONE of its three operations is hit by a fault of any kind (whatever error value
+the operation would return); and then it used exactly three operations -/
+theorem writeFile_ok_iff (sch : Sched) (k : Nat) (fs : FS) (f : File) :
+    (writeFile sch k fs f).out = .ok ↔ sch k = none ∧ sch (k + 1) = none ∧ sch (k + 2) = none := by
+  unfold writeFile
+  constructor
+  · intro h
+    split at h <;> try (simp at h)
+    split at h <;> try (simp at h)
+    split at h <;> try (simp at h)
+    simp_all
+  · rintro ⟨h0, h1, h2⟩
+    simp [h0, h1, h2]
+
+theorem writeFile_ok_k (sch : Sched) (k : Nat) (fs : FS) (f : File) (h : (writeFile sch k fs f).out = .ok) :
+    (writeFile sch k fs f).k = k + 3 := by
+  obtain ⟨h0, h1, h2⟩ := (writeFile_ok_iff sch k fs f).1 h
+  simp [writeFile, h0, h1, h2]
+
+theorem writeLoop_ok_noFault (b : Bool) (sch : Sched) (F : List File) :
+    ∀ (k : Nat) (fs : FS) (last : List String), (writeLoop b sch k fs last F).out = .ok →
+      ∀ j, j < 3 * F.length → sch (k + j) = none := by
+  induction F with
+  | nil => intro k fs last _ j hj; simp at hj
+  | cons f r ih =>
+    intro k fs last h j hj
+    unfold writeLoop at h
+    simp only at h
+    split at h
+    · next hok =>
+      obtain ⟨h0, h1, h2⟩ := (writeFile_ok_iff sch k fs f).1 hok
+      rw [writeFile_ok_k sch k fs f hok] at h
+      by_cases hj3 : j < 3
+      · have : j = 0 ∨ j = 1 ∨ j = 2 := by omega
+        rcases this with rfl | rfl | rfl <;> simp_all
+      · have := ih _ _ _ h (j - 3) (by simp only [List.length_cons] at hj; omega)
+        have e : k + 3 + (j - 3) = k + j := by omega
+        rw [e] at this; exact this
+    · next hne => simp at h; exact absurd h (by simpa using hne)
+
+theorem removeLoop_ok_k (sch : Sched) (ps : List String) :
+    ∀ (k : Nat) (fs : FS), (removeLoop sch k fs ps).out = .ok → (removeLoop sch k fs ps).k = k + ps.length := by
+  induction ps with
+  | nil => intro k fs _; rfl
+  | cons p ps ih =>
+    intro k fs h
+    unfold removeLoop at h ⊢
+    split at h
+    · simp at h
+    · rw [ih _ _ h]; simp only [List.length_cons]; omega
+    · simp at h
+    · rw [ih _ _ h]; simp only [List.length_cons]; omega
+
 end NGF.FileMgr
